@@ -1,12 +1,18 @@
 (* Props/C11.v -- Removing a vertex yields the triangulation that never contained it.
    Proved: the vertex-array effect of remove (Props/C05.v: returns the stored data, only the last index moves); the legalization
    used after removal preserves a valid counter-clockwise triangulation and never flips constraint edges (Props/C01.v, C03.v);
-   the edge-set comparison used against the rebuilt triangulation is exactly set equality of unordered pairs.
+   the comparisons applied to every removal (Check/Run.v check_ref, check_remove_cons) are exactly their declarative statements
+   (Obs/RemoveProp.v, Obs/RemoveProofs.v): the edge-set comparison is equality of sets of undirected pairs; the verdict `remove` says
+   that the constraint edges are those of the rebuilt triangulation and, whenever no free edge between two inner faces is cocircular,
+   so are all edges; the verdict `remove_cons` says that, by position, the constraints afterwards are exactly the former constraints
+   that do not touch the removed position.
    NOT proved: uniqueness of the Delaunay triangulation / the round trip; decided per case by comparison with a triangulation
    rebuilt from scratch by the implementation whenever no two adjacent faces are cocircular. *)
-From Coq Require Import ZArith List Bool Arith.
-From SpadeV Require Import Num.Decode Vmap.Model Vmap.Proofs Check.Run Cdt.SegSpecProofs.
 From SpadeV Require Props.C11b.   (* the executable model of removal: vertex table, count deltas, degenerate well-formedness *)
+From Coq Require Import ZArith List Bool Arith.
+From SpadeV Require Import Num.Decode Geom.Pred Obs.State Obs.Spec Vmap.Model Vmap.Proofs Check.Codes Check.Run Cdt.SegSpecProofs
+  Obs.RemoveProp Obs.RemoveProofs.
+Import ListNotations.
 
 Theorem C11_removed_vertex_and_swap : forall st i x, nth_error st i = Some x ->
      exists st', vm_remove st i = Some (st', x)
@@ -19,5 +25,54 @@ Theorem C11_edge_set_comparison : forall a b, pairs_same a b = true <->
   (forall p, (exists q, In q a /\ upair_eqb p q = true) <-> (exists q, In q b /\ upair_eqb p q = true)).
 Proof. exact pairs_same_spec. Qed.
 
+(* the same, as equality of sets of undirected pairs: {u,v} occurs in a iff it occurs in b *)
+Theorem C11_edge_sets_equal : forall a b, pairs_same a b = true <-> SameUPairs a b.
+Proof. exact pairs_same_sets. Qed.
+
+Theorem C11_position_pair_sets_equal : forall a b, kpairs_same a b = true <-> SameUPairs a b.
+Proof. exact kpairs_same_sets. Qed.
+
+(* what the compared lists are *)
+Theorem C11_edges_of_state : forall s u v, UIn (edge_pairs s) u v <-> EdgeBetween s u v.
+Proof. exact edge_pairs_UIn. Qed.
+Theorem C11_constraints_of_state : forall s u v, UIn (cons_pairs s) u v <-> ConstraintBetween s u v.
+Proof. exact cons_pairs_UIn. Qed.
+Theorem C11_constraint_positions_of_state : forall ks s k1 k2,
+  UIn (key_pairs_of ks s) k1 k2 <->
+  exists u v, ConstraintBetween s u v /\ nth u ks ((0,0),(0,0))%Z = k1 /\ nth v ks ((0,0),(0,0))%Z = k2.
+Proof. exact key_pairs_of_UIn. Qed.
+
+(* the uniqueness test under which edge sets are compared *)
+Theorem C11_uniqueness_test : forall s pts, unique_b s pts = true <-> Unique s pts.
+Proof. exact unique_b_spec. Qed.
+
+(* the verdicts `remove` (also `bulk_edges`, C10) and `remove_cons` *)
+Theorem C11_reference_verdict : forall n pts res rcs, ref_verdict n pts res rcs = true <-> RefOk n pts res rcs.
+Proof. exact ref_verdict_spec. Qed.
+Theorem C11_remaining_constraints_verdict : forall kp kn rk, remove_cons_verdict kp kn rk = true <-> RemoveConsOk kp kn rk.
+Proof. exact remove_cons_verdict_spec. Qed.
+
+(* check_ref / check_remove_cons of Check/Run.v are these verdicts applied to the parsed / decoded inputs.  (Their statements mention
+   obs_points / key_of, i.e. the binary64 decoding through Flocq, hence the four Flocq/Reals axioms in their assumptions.) *)
+Theorem C11_check_ref_is_ref_verdict : forall t n a res rcs pts,
+  parse_ref a = Some (res, rcs) -> obs_points n = Some pts ->
+  check_ref t n (Some a) = [(t, ref_verdict n pts res rcs)].
+Proof. exact check_ref_unfold. Qed.
+Theorem C11_check_remove_cons_is_verdict : forall p n rx ry vp vn rk,
+  vstate_of (o_verts p) = Some vp -> vstate_of (o_verts n) = Some vn -> key_of rx ry = Some rk ->
+  check_remove_cons p n rx ry =
+  [(T_remove_cons, remove_cons_verdict (key_pairs_of (map fst vp) p) (key_pairs_of (map fst vn) n) rk)].
+Proof. exact check_remove_cons_unfold. Qed.
+
 Print Assumptions C11_removed_vertex_and_swap.
 Print Assumptions C11_edge_set_comparison.
+Print Assumptions C11_edge_sets_equal.
+Print Assumptions C11_position_pair_sets_equal.
+Print Assumptions C11_edges_of_state.
+Print Assumptions C11_constraints_of_state.
+Print Assumptions C11_constraint_positions_of_state.
+Print Assumptions C11_uniqueness_test.
+Print Assumptions C11_reference_verdict.
+Print Assumptions C11_remaining_constraints_verdict.
+Print Assumptions C11_check_ref_is_ref_verdict.
+Print Assumptions C11_check_remove_cons_is_verdict.
